@@ -244,6 +244,8 @@ def observeHandler : Handler := fun payload impl =>
           if a ≠ e then "FAIL the clause behaves differently when loaded through Exec and through assertz"
           else if !(impl.startsWith (varsWant ++ " ;;")) then
             "FAIL storing the clause changed the caller's variables: want " ++ varsWant
+          else if section_ impl "nb: " ≠ "ok" then
+            "FAIL a predicate loaded from a text lost or changed a clause when its NEIGHBOUR in the text (a dynamic predicate loaded just before it) was extended by assertz/1: " ++ section_ impl "nb: "
           else if !disj && section_ impl "inq: " ≠ "[" ++ want ++ "]" then
             "FAIL clause/2 in the asserting query, after the caller bound its variables further, does not show the clause as stored (bindings made after storing leak into it): want " ++ want
           else if (match stored with | .app ":-" (.cons _ (.cons _ .nil)) => false | _ => true) &&
